@@ -52,6 +52,7 @@ def C13_verdict_logr_field_guarded : Verdict (Generated.Logs.logrFieldGuarded = 
 /-- the other lock facts the model's reading of the composite and JSON loggers relies on -/
 theorem C13_lock_modes_in_source :
     Generated.Logs.ok = true ∧ Generated.Logs.stringWriterReadsExclusive = true ∧
-    Generated.Logs.multipleWritersSnapshotUnderLock = true ∧ Generated.Logs.jsonSettersExclusive = true := by decide
+    Generated.Logs.multipleWritersSnapshotUnderLock = true ∧ Generated.Logs.jsonSettersExclusive = true ∧
+    Generated.Logs.compositeMembersUnderWriteLock = true := by decide
 
 end GoUtils.Props.C13
